@@ -35,6 +35,10 @@ var c06Focus = []string{
 	// the random-number functions, projected onto deterministic results
 	`$sum($shuffle(arr)) + n`, `$random() < 2 ? a : n`, `$count($shuffle(objs))`, `$sort($shuffle(arr))`, `$shuffle(arr)^($)`, `$floor($random()) + n`,
 	`$merge([b, {"n": n}])`, `$each(b, function($v, $k){$k & "=" & $v})`, `$type(a) & $type(n)`, `**.c`, `b.*`,
+	// timestamps in each of the default formats of $toMillis (a table shared by all evaluations is searched)
+	`$toMillis("2017-11-07") + $toMillis("2018") + n`, `$toMillis("2018") - $toMillis("2017-11-07T10:30:00") + n`, `$toMillis("2017-11-07T10:30:00") + n - $toMillis("2017-11-07T10:30:00+0100")`,
+	`[$toMillis("2017-11-07T10:30:00+0100") + n, $toMillis("2017-11-07")]`, `$toMillis("2017-11-07T10:30:00.000Z") + n - $toMillis("2018")`, `{"d": $toMillis("2017-11-07"), "y": $toMillis("2018") + n}`,
+	`[$toMillis("2018"), $toMillis("2017-11-07T10:30:00+01:00"), $toMillis("2017-11-07"), n]`, `$fromMillis($toMillis("2017-11-07T10:30:00") + n * 1000)`, `$toMillis($fromMillis(n * 86400000, "[Y0001]-[M01]-[D01]"))`,
 	// built-ins applied as bare function values (name and context are set on the function for the call)
 	`a ~> $uppercase`, `a ~> $length`, `n ~> $string ~> $length`, `arr ~> $sum`, `a ~> $substringBefore("-") ~> $uppercase`, `"-" ~> $contains`, `a.("z" ~> $substringBefore)`, `a.("-" ~> $split)`,
 	`n.(2 ~> $power)`, `[a ~> $lowercase, a ~> $trim, n ~> $abs]`, `$map(arr, function($v){$v ~> $string}) ~> $join`, `b.("c" ~> $lookup)`,
